@@ -123,7 +123,7 @@ def _pool_key_for(obj):
     if f == "i":
         return f"i:{obj}"
     if f == "w":
-        return f"w:{obj._dict['k']}"
+        return f"w:{obj._dict['val']}"
     if f == "o":
         return "o:" + obj.guid[1:]
     if f == "f":
@@ -178,7 +178,7 @@ def _effective_maps(w: World, flavour: str, cls, key_map_opt, value_map_opt, kin
 
 
 def check_written_document(w: World, text: str, mt, *, exp_key_map, exp_value_map,
-                           user_meta, trigger, extra=None):
+                           user_meta, trigger, extra=None, encode=encode_value):
     """C12 writing side: the text must follow the documented layout and decode
     to the model state."""
 
@@ -262,7 +262,7 @@ def check_written_document(w: World, text: str, mt, *, exp_key_map, exp_value_ma
         if isinstance(m.data, str):
             exp["str"] = m.data
         else:
-            exp.update(encode_value(m.data))
+            exp.update(encode(m.data))
             if extra:
                 exp.update(extra)
         if custom:
@@ -341,7 +341,19 @@ def plan_restart(w: World, op: dict) -> Plan:
     # a field name that equals a short key of the key map in use
     user_keys_collide = user_keys and op.get("key_map", "default") != "off" \
         and any(not isinstance(m.data, str) for m in mt.root.iter_pre())
-    if not class_style and not no_mapper:
+    # the mapper pair the library ships for DictWrapper data (ug_objects.rst): only
+    # for trees in which every node holds a DictWrapper
+    shipped = (op.get("mapper_style") == "shipped" and not class_style and not no_mapper
+               and bool(mt.root.children)
+               and all(flavour_of(m.data) == "w" for m in mt.root.iter_pre()))
+    if op.get("mapper_style") == "shipped" and not shipped:
+        return Plan(EXCLUDED, why="DictWrapper mappers need DictWrapper data in every node")
+    if shipped:
+        if _has_identity_kind_conflict(mt):
+            return Plan(EXCLUDED, why="clones of differing kind with a non-interning mapper")
+        user_keys = user_keys_collide = False
+        kw["mapper"] = w.nt.DictWrapper.serialize_mapper
+    elif not class_style and not no_mapper:
         kw["mapper"] = _ser(w, op.get("mapper_style", "inplace_ret"), user_keys=user_keys)
     if comp is not None:
         kw["compression"] = comp if isinstance(comp, bool) else COMPRESSION[comp]
@@ -350,6 +362,8 @@ def plan_restart(w: World, op: dict) -> Plan:
         trigger += "/zip"
     if user_keys_collide:
         trigger += "/user-key-collides"
+    if shipped:
+        trigger += "/dictwrapper-mappers"
     # probes for rare shapes
     seen = {}
     for m in mt.root.iter_pre():
@@ -404,7 +418,9 @@ def plan_restart(w: World, op: dict) -> Plan:
         try:
             check_written_document(w, text, mt, exp_key_map=exp_k, exp_value_map=exp_v,
                                    user_meta=user_meta, trigger=trigger,
-                                   extra=USER_KEYS if user_keys else None)
+                                   extra=USER_KEYS if user_keys else None,
+                                   encode=(lambda o: dict(o._dict)) if shipped
+                                   else encode_value)
         except Violation as v12:
             # keep going: what load() makes of the file is C05's own question
             pending.append(v12)
@@ -418,7 +434,9 @@ def plan_restart(w: World, op: dict) -> Plan:
         lkw = {"file_meta": file_meta}
         if op.get("auto_uncompress"):
             lkw["auto_uncompress"] = True  # the default, spelled out
-        if not class_style and not no_mapper:
+        if shipped:
+            lkw["mapper"] = w.nt.DictWrapper.deserialize_mapper
+        elif not class_style and not no_mapper:
             lkw["mapper"] = _interning_deser(w, {}, consume=op.get("deser_style") == "consume",
                                              verify_user_keys=user_keys)
         try:
